@@ -59,6 +59,32 @@ Theorem C08_decode_series_total :
 Proof. exact (fun F pf ff => decode_series_total pf ff). Qed.
 Print Assumptions C08_decode_series_total.
 
+(** A Decoder used for several values: each Decode call returns (a value, or
+    errors); a call that returns a value has consumed at least one token, so
+    the loop "for dec.More() { dec.Decode(..) }" ends on every input - with
+    More() false or with the first error. *)
+Theorem C08_decode_step_total :
+  forall (F : Type) (pf : list N -> option F) (ff : F -> list N) st,
+  exists r, decode_step pf ff st = Some r.
+Proof. exact (fun F pf ff => decode_step_total pf ff). Qed.
+Print Assumptions C08_decode_step_total.
+
+Theorem C08_decode_step_progress :
+  forall (F : Type) (pf : list N -> option F) (ff : F -> list N) st t st',
+  good st -> decode_step pf ff st = Some (DOk t, st') ->
+  good st' /\ (msr st' < msr st)%nat.
+Proof.
+  exact (fun F pf ff st t st' Hg H =>
+    conj (good_reach _ _ (decode_step_reach pf ff _ _ _ H) Hg) (decode_step_progress pf ff st t st' Hg H)).
+Qed.
+Print Assumptions C08_decode_step_progress.
+
+Theorem C08_decode_stream_total :
+  forall (F : Type) (pf : list N -> option F) (ff : F -> list N) input,
+  exists r, decode_all pf ff input = Ok r.
+Proof. exact (fun F pf ff => decode_all_total pf ff). Qed.
+Print Assumptions C08_decode_stream_total.
+
 Theorem C08_shell_parse_total : forall input,
   exists r, shell_parse input = Ok r /\ value_or_error r.
 Proof. exact shell_parse_total. Qed.
@@ -168,7 +194,7 @@ Print Assumptions C08_source_agrees_with_model.
 
 (** "x {" — the input that never returned — now ends with errors. *)
 Example C08_x_brace :
-  decode_series (fun _ => @None N) (fun _ => []) (fun _ => true) [120; 32; 123]
+  decode_series (fun _ => @None N) (fun _ => []) (fun _ => Some (fun _ => true)) [120; 32; 123]
   = Ok (None, [EExpectObjectEntry]).
 Proof. vm_compute. reflexivity. Qed.
 
@@ -186,9 +212,30 @@ Example C08_trailing_comment_example :
   unmarshal (fun _ => @None N) (fun _ => []) [49; 59; 47; 42] = Ok (UErr EUnexpectedEOF).
 Proof. vm_compute. reflexivity. Qed.
 
+(** Three values from one Decoder, then More() is false; and a stream whose
+    third value is cut. *)
+Example C08_stream_example :
+  decode_all (fun _ => @None N) (fun _ => []) [49; 32; 123; 97; 58; 49; 125; 10; 91; 93; 59]
+  = Ok ([[49]; [123; 34; 97; 34; 58; 49; 125]; [91; 93]], None).
+Proof. vm_compute. reflexivity. Qed.
+
+Example C08_stream_cut_example :
+  decode_all (fun _ => @None N) (fun _ => []) [49; 32; 123; 97; 58; 49; 125; 10; 91]
+  = Ok ([[49]; [123; 34; 97; 34; 58; 49; 125]], Some (DErrs [EExpectOperand])).
+Proof. vm_compute. reflexivity. Qed.
+
+(** A typed series: the second entry's text is rejected by the strict
+    decoding of its type, so the call fails with jsonx.marshalJSON. *)
+Example C08_typed_series_example :
+  decode_series (fun _ => @None N) (fun _ => [])
+    (fun n => if list_N_eqb n [120] then Some (fun t => negb (list_N_eqb t [91; 49; 44; 50; 93])) else None)
+    [120; 32; 123; 97; 58; 49; 125; 10; 120; 32; 91; 49; 44; 50; 93; 10]
+  = Ok (None, [EMarshalJSON]).
+Proof. vm_compute. reflexivity. Qed.
+
 (** A series file that parses: fuel, values and no errors. *)
 Example C08_series_example :
-  decode_series (fun _ => @None N) (fun _ => []) (fun _ => true)
+  decode_series (fun _ => @None N) (fun _ => []) (fun _ => Some (fun _ => true))
     [120; 32; 123; 97; 58; 49; 125; 10; 121; 32; 91; 49; 44; 50; 93; 10]
   = Ok (Some [([120], [123; 34; 97; 34; 58; 49; 125]); ([121], [91; 49; 44; 50; 93])], []).
 Proof. vm_compute. reflexivity. Qed.
@@ -208,7 +255,7 @@ Fixpoint rep_list (n : nat) (l : list N) : list N :=
   match n with O => [] | S k => l ++ rep_list k l end.
 
 Example C08_many_errors_example :
-  match decode_series (fun _ => @None N) (fun _ => []) (fun _ => true)
+  match decode_series (fun _ => @None N) (fun _ => []) (fun _ => Some (fun _ => true))
           (rep_list 21 [49; 32; 123; 125; 10]) with       (* "1 {}\n" x 21 *)
   | Ok (None, errs) => List.length errs
   | _ => 0%nat
